@@ -101,6 +101,12 @@ Theorem C07_break_ends_the_whole_query : forall cfg d a ar s wr acc pr ord decs 
   iterd_world cfg d (a :: ar) (s :: wr) (Some acc :: pr) ord decs din = Ok (s1 :: wr, recs, ds, din1) tt.
 Proof. exact iterd_world_break. Qed.
 
+(** ... and so does a panic: the archetypes after the panicking one are returned untouched. *)
+Theorem C07_panic_ends_the_whole_query : forall cfg d a ar s wr acc pr ord decs din p s1 recs ds ord1 stp din1,
+  iterd_arch cfg (len s) s (version s) acc (nz_cols d a) ord decs din = Panic p (s1, recs, ds, ord1, stp, din1) ->
+  iterd_world cfg d (a :: ar) (s :: wr) (Some acc :: pr) ord decs din = Panic p (s1 :: wr, recs, ds, din1).
+Proof. exact iterd_world_panic. Qed.
+
 (** Non-vacuity: the hypotheses hold of a concrete three-entity storage, and a loop with decisions
     Continue, ContinueDestroy, Break visits 515, 259, 3 (reverse dense order), removes 259 only, and
     hands the third visit a direct handle with the version the removal produced. *)
